@@ -34,10 +34,66 @@ def gen_cases(ck):
                       "rhs": ["static", "velocity"][int(ck.rng.integers(3) == 0)], "dt": float(10.0 ** ck.rng.uniform(-1, 1)),
                       "method": [None, None, "lsq", "lsq_linear", "fix_stress"][int(ck.rng.integers(5))],
                       "allow_negatives": bool(ck.rng.integers(2)), "fit": ["dlite", "taubinSVD"][int(ck.rng.integers(2))]})
+    for i in range(10 if ck.tier == "quick" else 80):
+        # square systems (one cell ringed by its neighbours: as many equations as unknowns) -> the exact-inversion path; out of
+        # equilibrium, so that the exact solution has negative entries; the storage variant is chosen so that the negative
+        # entries sit at chosen positions of the unknown vector (first / last / anywhere)
+        cases.append({"type": "tissue", "seed": int(ck.rng.integers(1 << 30)), "tissue": ["random", "jitter"][i % 2], "sites": int(ck.rng.integers(40, 70)),
+                      "flower": True, "min_ridge": 0.003, "mobius": False, "kmin": [0, 1][i % 2], "kmax": [0, 4][i % 2],
+                      "angle": float(ck.rng.uniform(0, 6.28)), "scale": 1.0, "noise": float(ck.rng.choice([0.03, 0.06, 0.1])), "rhs": "static",
+                      "method": None, "allow_negatives": bool(i % 5 == 4), "fit": "dlite", "storage_in_series": True, "shifts": True,
+                      "shuffle_cells": True, "p_rev": 0.5, "negative_at": ["last", "first", "last", "any"][i % 4]})
     return cases
 
 
-def setup(case):
+def exact_solution(case):
+    sc = setup(case, build_only=True)
+    if sc is None:
+        return None
+    A = np.array(sc.fm.matrix, dtype=float)
+    if A.shape[0] != A.shape[1] or A.shape[0] == 0:
+        return None
+    n = A.shape[1]
+    M = np.block([[A, np.ones((n, 1))], [np.ones((1, n)), np.zeros((1, 1))]])
+    try:
+        return np.linalg.solve(M, np.concatenate([np.zeros(n), [float(n)]]))
+    except np.linalg.LinAlgError:
+        return None
+
+
+def place_negative(case):
+    """out-of-equilibrium square systems with the negative entry of the exact solution at a chosen position of the unknown
+    vector: the amplitude of the (fixed) junction displacement is raised until exactly one tension of the exact solution is
+    negative, then the storage variant (cell order, cycle starts, orientations: the same physical tissue) is chosen for which
+    that interface is the first / the last unknown"""
+    want = case.get("negative_at")
+    if want in (None, "any") or "variant" in case:
+        return case
+    found = None
+    for noise in np.geomspace(1e-3, 0.3, 240):
+        z = exact_solution(dict(case, noise=float(noise), variant=0))
+        if z is None:
+            return case
+        neg = [i for i in range(len(z) - 1) if z[i] < -1e-4]
+        if len(neg) == 1:
+            found = float(noise); break
+        if len(neg) > 1:
+            break
+    if found is None:
+        return case
+    for v in range(80):
+        c = dict(case, noise=found, variant=v)
+        z = exact_solution(c)
+        if z is None:
+            continue
+        n = len(z) - 1
+        neg = [i for i in range(n) if z[i] < -1e-6]
+        if (want == "last" and neg == [n - 1]) or (want == "first" and neg == [0]):
+            return c
+    return case
+
+
+def setup(case, build_only=False):
     rng = np.random.default_rng(case["seed"] + 5)
     if case["rhs"] == "velocity":
         probe = statics.build_static(case)
@@ -72,6 +128,9 @@ def setup(case):
 
 def run_case(ck, case, reqs, pending):
     np.seterr(all="raise")      # the state `import forsys` establishes; lmfit/scipy may leave another one behind
+    case = place_negative(case)
+    if case.get("flower"):
+        ck.count("flower_negative_placed_" + str(case.get("negative_at")) if "variant" in case else "flower_negative_not_placed")
     sc = setup(case)
     if sc is None:
         ck.count("rejected_tissue"); return
